@@ -10,6 +10,7 @@ From Cedar Require Export ParseRun.
 From Cedar Require Export Fmt.
 From Cedar Require Export EstRun.
 From Cedar Require Export PERun.
+From Cedar Require Export PolicySetRun.
 
 Definition dispatchers : list (string -> list sexp -> option sexp) :=
   [ run_core
@@ -20,6 +21,7 @@ Definition dispatchers : list (string -> list sexp -> option sexp) :=
   ; run_fmt
   ; run_formats
   ; run_pe
+  ; run_pset
   ].
 
 Fixpoint dispatch (ds : list (string -> list sexp -> option sexp)) (cmd : string) (args : list sexp) : sexp :=
